@@ -75,6 +75,9 @@ type bsRec struct {
 	Probed   bool
 	NotesAt  int   // listener calls seen when the call started
 	Deadline int64 // entry deadline (cache nanos) right after the map phase
+	LoadCost int64 // cost the loader returned for a loading get that stored its value
+	PrevDL   int64 // deadline of the entry just before the call (0 none / no entry)
+	Stored   bool  // a loading get whose loaded value was put into the map (new entry or in place)
 }
 
 type bsCfg struct {
@@ -118,7 +121,8 @@ type bsWorld struct {
 	advs   int
 	err    string
 	// departed incarnations are tracked by the oracles through recs + notes
-	noteStep []int // logical step of each listener call
+	noteStep []int   // logical step of each listener call
+	noteNow  []int64 // cache clock (nanos since cache start) of each listener call
 	loads    []bsLoad
 }
 
@@ -148,6 +152,7 @@ func newBsWorld(cfg *bsCfg) *bsWorld {
 	prev := w.h.onNote
 	w.h.onNote = func(n hNote) {
 		w.noteStep = append(w.noteStep, w.step)
+		w.noteNow = append(w.noteNow, vrt.NowNanos())
 		if prev != nil {
 			prev(n)
 		}
@@ -226,8 +231,14 @@ func (w *bsWorld) apply(a string) bool {
 			rec.V = w.nextV
 		}
 		rec.NotesAt = len(w.h.notes)
+		loads0 := len(w.loads)
 		var before *Entry[int, int]
-		vrt.Quiet(func() { before = w.residentEntry(op.K) })
+		vrt.Quiet(func() {
+			before = w.residentEntry(op.K)
+			if before != nil {
+				rec.PrevDL = before.expire.Load()
+			}
+		})
 		w.recs = append(w.recs, rec)
 		cl.rec = rec
 		cl.used++
@@ -240,12 +251,17 @@ func (w *bsWorld) apply(a string) bool {
 			after := w.residentEntry(op.K)
 			switch op.Kind {
 			case "set", "lget":
+				if op.Kind == "lget" && len(w.loads) > loads0 {
+					rec.V = w.loads[len(w.loads)-1].V
+					rec.LoadCost = w.cfg.LoadCost
+					if rec.LoadCost == 0 {
+						rec.LoadCost = 1
+					}
+					rec.Stored = after != nil && after.value == rec.V
+				}
 				if after != nil && after != before {
 					rec.Created, rec.Entry = true, after
-					if op.Kind == "lget" {
-						rec.V = after.value
-					}
-				} else if after != nil && op.Kind == "set" && after.value == rec.V {
+				} else if after != nil && (op.Kind == "set" || rec.Stored) && after.value == rec.V {
 					rec.Entry = after // in-place update
 				}
 				if after != nil {
